@@ -3,6 +3,7 @@ import Rangers.Basic.Line
 import Rangers.Model.RLP
 import Rangers.Model.RLPStream
 import Rangers.Model.RLPTyped
+import Rangers.Model.RLPEncbuf
 /-!
 Line-protocol driver for C08 (RLP).  Ops (see harness/cmd/c08/main.go):
 
@@ -12,6 +13,7 @@ Line-protocol driver for C08 (RLP).  Ops (see harness/cmd/c08/main.go):
   stream <auto|lim<k>|unl> <hex> <op,op,…> a script of Stream method calls, error-exact, + bytes consumed
   dec <type> <hex>                         typed DecodeBytes (pure model `decodeTy`), ok/err + value
   enc <type> <value>                       typed EncodeToBytes (`encT`)
+  encbuf <value>                           EncodeToBytes of a []byte/[]interface{} tree through the encbuf model (`encodeViaBuf`)
 
 Unparseable lines answer `bad-op` (never a default).
 -/
@@ -42,6 +44,20 @@ mutual
   def itemsVal : List Item → List Val
     | [] => []
     | x :: xs => itemVal x :: itemsVal xs
+end
+
+mutual
+  /-- value text restricted to byte strings and lists, as an item -/
+  def valItem? : Val → Option Item
+    | .bytes b => some (.str b)
+    | .list vs => (valsItems? vs).map Item.list
+    | _ => none
+  def valsItems? : List Val → Option (List Item)
+    | [] => some []
+    | v :: vs =>
+      match valItem? v, valsItems? vs with
+      | some x, some xs => some (x :: xs)
+      | _, _ => none
 end
 
 def natOf? (s : String) : Option Nat := if s.isEmpty then none else s.toNat?
@@ -265,6 +281,13 @@ def step (_ : Unit) (line : String) : Unit × String :=
       match tyOf? t, ofHex? h with
       | some ty, some b => resCoarse ((decodeTy ty b).map showVal)
       | _, _ => "bad-op"
+    | ["encbuf", v] =>
+      match valOf? v with
+      | some val =>
+        match valItem? val with
+        | some it => "ok " ++ toHex (encodeViaBuf it)
+        | none => "bad-op"
+      | none => "bad-op"
     | ["enc", t, v] =>
       match tyOf? t, valOf? v with
       | some ty, some val => resCoarse ((encT ty val).map toHex)
